@@ -228,6 +228,13 @@ class Facts:
                     elif g.get('const_str') is not None:
                         e['from_global'] = e.get('q')
                         e['k'], e['v'] = 'str', g['const_str']
+        # explicit iterator loops over a whole container read like the range-for they are:
+        #   for (auto it = X.begin(); it != X.end(); ++it) { ... *it ... it->m ... }   ==>   for (auto &elem : X) { ... elem ... elem.m ... }
+        for f in self.functions:
+            if f.get('body') is not None and not f['file'].endswith('lex.yy.c'):
+                for st in walk_stmts(f['body']):
+                    if st.get('k') == 'for':
+                        _desugar_iterator_loop(st)
         # front-end health
         bad = [x for x in self.diagnostics if x['level'] == 'error' and x['in_root']]
         if bad:
@@ -357,6 +364,88 @@ def walk_stmts(s):
     ss, _ = stmt_children(s)
     for c in ss:
         yield from walk_stmts(c)
+
+
+_SYNTH = [10 ** 9]
+
+
+def _desugar_iterator_loop(st):
+    init = st.get('init')
+    if not init or init.get('k') != 'decl' or len(init.get('vars', [])) != 1 or st.get('c') is None or st.get('inc') is None:
+        return
+    it = init['vars'][0]
+    i0 = strip_conv(strip_casts(it.get('init'))) if it.get('init') is not None else None
+    if i0 is None or i0.get('k') != 'call' or (i0.get('callee') or '').split('::')[-1] not in ('begin', 'cbegin') or i0.get('obj') is None:
+        return
+    cont = i0['obj']
+    cty = (strip_casts(cont).get('cty') or '').replace('const ', '')
+    if not cty.startswith(('std::set<', 'std::map<', 'std::vector<', 'std::multiset<', 'std::unordered_')):
+        return
+    c = strip_casts(st['c'])
+    sides = None
+    if c.get('k') == 'bin' and c.get('op') == '!=':
+        sides = (c['l'], c['r'])
+    elif c.get('k') == 'call' and c.get('op') == '!=':
+        sides = ((c['obj'], c['args'][0]) if c.get('obj') is not None else tuple(c['args'][:2]))
+    if not sides or len(sides) != 2:
+        return
+    a, b = strip_conv(strip_casts(sides[0])), strip_conv(strip_casts(sides[1]))
+    if b.get('k') == 'ref' and b.get('d') == it['d']:
+        a, b = b, a
+    if not (a.get('k') == 'ref' and a.get('d') == it['d'] and b.get('k') == 'call' and (b.get('callee') or '').split('::')[-1] in ('end', 'cend') and
+            b.get('obj') is not None and show(strip_casts(b['obj'])) == show(strip_casts(cont))):
+        return
+    inc = strip_casts(st['inc'])
+    tgt = inc.get('e') if inc.get('k') == 'un' and inc.get('op') == '++' else (inc.get('obj') if inc.get('k') == 'call' and inc.get('op') == '++' else None)
+    if tgt is None or strip_casts(tgt).get('d') != it['d']:
+        return
+    # every use of the iterator in the body is a dereference
+    derefs, arrows, others = [], [], []
+
+    def scan(x, parent_is_deref=False):
+        if isinstance(x, dict):
+            k = x.get('k')
+            if (k == 'un' and x.get('op') == '*' and strip_casts(x.get('e') or {}).get('d') == it['d']) or \
+                    (k == 'call' and x.get('op') == '*' and x.get('obj') is not None and strip_casts(x['obj']).get('d') == it['d'] and not x.get('args')):
+                derefs.append(x)
+                return
+            if k == 'member' and x.get('arrow') and x.get('base') is not None:
+                bb = strip_casts(x['base'])
+                if bb.get('d') == it['d'] and bb.get('k') == 'ref':
+                    arrows.append(x)
+                    return
+                if bb.get('k') == 'call' and bb.get('op') == '->' and bb.get('obj') is not None and strip_casts(bb['obj']).get('d') == it['d']:
+                    arrows.append(x)
+                    return
+            if k == 'ref' and x.get('d') == it['d']:
+                others.append(x)
+                return
+            for v in x.values():
+                scan(v)
+        elif isinstance(x, list):
+            for y in x:
+                scan(y)
+    scan(st.get('body'))
+    if others or not (derefs or arrows):
+        return
+    _SYNTH[0] += 1
+    nd = _SYNTH[0]
+    ety = (derefs[0].get('cty') if derefs else None) or ''
+    name = it['name'] + '_elem'
+    for x in derefs:
+        loc, sid = x.get('loc'), x.get('sid')
+        x.clear()
+        x.update({'k': 'ref', 'dk': 'var', 'd': nd, 'name': name, 'cty': ety, 'ty': ety, 'loc': loc, 'sid': sid})
+    for x in arrows:
+        x['base'] = {'k': 'ref', 'dk': 'var', 'd': nd, 'name': name, 'cty': ety, 'ty': ety, 'loc': x.get('loc'), 'sid': None}
+        x['arrow'] = False
+    var = {'d': nd, 'name': name, 'cty': ety or 'auto', 'ty': ety or 'auto', 'is_ref': True, 'const': False, 'loc': it.get('loc'), 'init': None,
+           'static_local': False, 'tls': False}
+    body = st.get('body')
+    keep = {k2: v2 for k2, v2 in st.items() if k2 in ('loc', 'sid')}
+    st.clear()
+    st.update(keep)
+    st.update({'k': 'rangefor', 'var': var, 'range': cont, 'body': body, 'desugared_from_iterator_loop': True})
 
 
 def walk_all_exprs(s):
